@@ -242,7 +242,11 @@ def tagrefs(families, names=None, weight_foreign=3):
                              ("uri", "tag:example.com,2000:x"),
                              ("uri", "tag:yaml.org,2002:python"), ("uri", "tag:yaml.org,2002:python/"),
                              ("uri", "tag:yaml.org,2002:python/object"), ("uri", "tag:yaml.org,2002:yaml"), ("bang",),
-                             ("uri", "tag:yaml.org,2002:Python/name:os.system"), ("uri", "tag:yaml.org,2002:str2")])
+                             ("uri", "tag:yaml.org,2002:Python/name:os.system"), ("uri", "tag:yaml.org,2002:str2"),
+                             # verbatim tags that look like something the resolver or the specification gives a meaning to: one-character
+                             # tags ('?' is the specification's name for "no tag"), the bare core prefix, core names in another spelling
+                             ("uri", "?"), ("uri", "*"), ("uri", "~"), ("uri", "."), ("uri", "-"), ("uri", "tag:yaml.org,2002:"), ("uri", "tag:yaml.org,2002:Str"),
+                             ("uri", "str"), ("uri", "!!str"), ("uri", "tag:yaml.org,2002:map "), ("uri", "??"), ("uri", "!"), ("uri", "?!")])
     core = st.sampled_from(CORE).map(lambda n: ("core", n))
     return st.one_of(*([py] * weight_foreign), pyval, other, core, st.none(), st.none())
 
